@@ -85,6 +85,8 @@ def worker_chunk(args):
             agg["fired"][g] = agg["fired"].get(g, 0) + 1
         for k, v in st.get("probes", {}).items():
             agg["probes"][k] = agg["probes"].get(k, 0) + v
+        for k, v in st.get("transition_points", {}).items():
+            agg["probes"]["transition:" + k] = agg["probes"].get("transition:" + k, 0) + v
         if desc["swarm"].get("fault_free"):
             agg["fault_free_runs"] += 1
         kinds = []
